@@ -400,6 +400,7 @@ pub fn prove_trace(rec: &CallRec, inp: &ProverInputs, toks: &mut Toks, arith: bo
         None => json!({"alpha": [], "dL": [], "dR": [], "d": [], "eta": []}),
     };
     call["arith"] = json!(arith);
+    call["reference"] = json!(info["reference"].as_bool().unwrap_or(false));
     out.push(call);
     merlin_events(&rec.merlin, toks, out);
     // the precomputed MSM that produced A: static scalars by table role, as the prover handed them over
